@@ -85,6 +85,14 @@ func (e *Env) boolOf(tv TV) *Term {
 
 func (e *Env) evalBool(x *Expr) *Term { return e.boolOf(e.eval(x)) }
 
+// assume evaluates a specification clause and adds it (with the type invariants of the heap
+// values it reads) to the state.
+func (e *Env) assume(st *State, x *Expr) {
+	t := e.evalBool(x)
+	e.fv.flushSide(st)
+	st.assume(t)
+}
+
 func (e *Env) lookupConst(pkgPath, name string) (TV, bool) {
 	sp := e.fv.P.SSAPkgs[pkgPath]
 	if sp == nil {
@@ -107,6 +115,10 @@ func (e *Env) lookupConst(pkgPath, name string) (TV, bool) {
 		}
 		if v, ok := e.fv.sentinelGlobal(e.st, g); ok {
 			return TV{v, o.Type()}, true
+		}
+		switch o.Type().Underlying().(type) {
+		case *types.Struct, *types.Array:
+			return TV{Scalar{e.fv.globalAddr(g)}, types.NewPointer(o.Type())}, true
 		}
 		v := e.st.heap.load(o.Type(), e.fv.globalAddr(g))
 		return TV{v, o.Type()}, true
@@ -576,7 +588,14 @@ func (e *Env) fieldOf(base TV, name, pos string) TV {
 					// by-value aggregate: denote by its address (pointer to it)
 					return TV{Scalar{addr}, types.NewPointer(ft)}
 				}
-				return TV{e.st.heap.load(ft, addr), ft}
+				v := e.st.heap.load(ft, addr)
+				if !addr.hasBound {
+					// type invariant of the loaded value: a fact about every well-typed heap
+					tmp := &State{wm: e.st.wm}
+					e.fv.assumeLoaded(tmp, v, ft)
+					e.fv.side = append(e.fv.side, tmp.pc...)
+				}
+				return TV{v, ft}
 			}
 			return TV{base.V.(StructV).Fields[i], ft}
 		}
@@ -723,6 +742,29 @@ func (e *Env) evalCall(x *Expr) TV {
 		case SliceV:
 			return TV{Scalar{Ge(RootID(v.Arr), e.old.wm)}, nil}
 		}
+	case "ref":
+		a := arg(0)
+		switch v := a.V.(type) {
+		case IfaceV:
+			return TV{Scalar{v.Ref}, nil}
+		case Scalar:
+			return TV{Scalar{v.T}, nil}
+		case SliceV:
+			return TV{Scalar{v.Arr}, nil}
+		}
+	case "elemref":
+		a := arg(0)
+		return TV{Scalar{ElemRef(a.V.(Scalar).T, e.idxOf(arg(1)))}, nil}
+	case "ptr_extent":
+		a := arg(0)
+		var r *Term
+		switch v := a.V.(type) {
+		case Scalar:
+			r = v.T
+		case IfaceV:
+			r = v.Ref
+		}
+		return TV{Scalar{App("ptr_extent", e.fv.l.idxSort(), r)}, types.Typ[types.Int]}
 	case "isnil":
 		a := arg(0)
 		switch v := a.V.(type) {
@@ -739,7 +781,8 @@ func (e *Env) evalCall(x *Expr) TV {
 		name := x.Args[1].Name
 		t, err := e.fv.P.ResolveType(e.pkg, name)
 		if err != nil {
-			e.fv.fail("%s: %v", x.Pos, err)
+			// type of a package that is not part of this program: uninterpreted
+			return TV{Scalar{App("typeis_"+sanitize(name), BoolSort, a.Typ)}, nil}
 		}
 		return TV{Scalar{Eq(a.Typ, IntLit(int64(typeID(t))))}, nil}
 	case "same":
@@ -813,6 +856,16 @@ func (e *Env) evalCall(x *Expr) TV {
 	if m == nil {
 		m = e.fv.P.Specs.Macros["::"+name]
 	}
+	if m == nil && strings.Contains(x.Name, ".") && pkg != e.pkg && e.fv.P.SSAPkgs[pkg] == nil || (m == nil && strings.Contains(x.Name, ".") && !e.fv.P.pkgHasSpecs(pkg)) {
+		// a predicate of a package that is not part of this program: uninterpreted
+		var ts []*Term
+		for i := range x.Args {
+			if s, ok := arg(i).V.(Scalar); ok {
+				ts = append(ts, s.T)
+			}
+		}
+		return TV{Scalar{App("unloaded_"+sanitize(x.Name), BoolSort, ts...)}, nil}
+	}
 	if m == nil {
 		e.fv.fail("%s: unknown function %q in specification", x.Pos, x.Name)
 	}
@@ -869,7 +922,7 @@ func (e *Env) evalLocs(xs []*Expr) []modLoc {
 func (e *Env) evalLoc(x *Expr) []modLoc {
 	switch x.Kind {
 	case ECall:
-		if x.Name == "mem" {
+		if x.Name == "mem" || x.Name == "memcap" {
 			a := e.eval(x.Args[0])
 			switch v := a.V.(type) {
 			case SliceV:
@@ -877,11 +930,15 @@ func (e *Env) evalLoc(x *Expr) []modLoc {
 				if st, ok := a.T.Underlying().(*types.Slice); ok {
 					et = st.Elem()
 				}
-				return []modLoc{{kind: "mem", addr: v.Arr, typ: et}}
+				n := v.Len
+				if x.Name == "memcap" {
+					n = v.Cap
+				}
+				return []modLoc{{kind: "mem", addr: v.Arr, typ: et, lo: v.Off, hi: Add(v.Off, n)}}
 			case Scalar:
 				if pt, ok := a.T.Underlying().(*types.Pointer); ok {
 					if at, ok := pt.Elem().Underlying().(*types.Array); ok {
-						return []modLoc{{kind: "mem", addr: v.T, typ: at.Elem()}}
+						return []modLoc{{kind: "mem", addr: v.T, typ: at.Elem(), lo: e.fv.idx(0), hi: e.fv.idx(at.Len())}}
 					}
 				}
 			}
@@ -952,8 +1009,17 @@ func (fv *FV) havoc(st *State, locs []modLoc, tag string) {
 			if cs == nil {
 				fv.fail("havoc of composite-element array not supported")
 			}
+			fv.nfresh++
+			j := BoundVar(fmt.Sprintf("j!hv%d", fv.nfresh), fv.l.idxSort())
 			for k, c := range cs {
-				st.heap.setElemRow(c.sort, k, m.addr, fv.fresh(tag+"_row", ArraySort(fv.l.idxSort(), c.sort)))
+				oldRow := st.heap.elemRow(c.sort, k, m.addr)
+				newRow := fv.fresh(tag+"_row", ArraySort(fv.l.idxSort(), c.sort))
+				q := Forall([]*Term{j}, Implies(Not(And(fv.idxLe(m.lo, j), fv.idxLt(j, m.hi))), Eq(Select(newRow, j), Select(oldRow, j))))
+				if q.Op == "forall" {
+					q.Pats = [][]*Term{{Select(newRow, j)}}
+				}
+				st.assume(q)
+				st.heap.setElemRow(c.sort, k, m.addr, newRow)
 			}
 		case "ghost":
 			st.ghost[m.name] = fv.fresh(tag+"_"+m.name, m.sort)
